@@ -142,6 +142,41 @@ def gen_lexing(rng, n):
     return out
 
 
+# ---- 1b. unterminated / badly escaped string and character literals of every length ------------------------------------
+
+LITERAL_LENGTHS = [1, 2, 3, 5, 8, 12, 16] + list(range(20, 61)) + [64, 70, 80, 100, 128, 150, 200]
+LEX_WATCHDOG = 5.0      # the lexer has to refuse these at once: a short limit of their own
+
+
+def gen_unterminated(rng, n):
+    """a quote followed by N plain characters and no (valid) end of the literal on that line: the lexer must report it at
+    once - a regular expression that backtracks over the 2^N ways to split the run never returns"""
+    plain = 'abcdefghijklmnopqrstuvwxyzABCDEFGHIJKLMNOPQRSTUVWXYZ0123456789 _.,;:+-*/()<>=!?#$%&@[]{}|^~'
+    contexts = [
+        ('top level, no closing quote', ';"{X}\n;\n'), ('top level, end of file', ';"{X}'),
+        ('in a macro body', 'def m {{\n;"{X}\n}}\nm\n'), ('as a macro argument', 'def m a {{\n;a\n}}\nm "{X}\n'),
+        ('after a valid string on the same line', 'def m a, b {{\n;a\n;b\n}}\nm "ok", "{X}\n'),
+        ('after a valid string in an expression', ';"ab" + "{X}\n'), ('in a rep count', 'def m {{\n;\n}}\nrep("{X}, i) m\n'),
+        ('invalid escape at the end', ';"{X}\\q"\n'), ('short hex escape at the end', ';"{X}\\x4"\n'),
+        ('backslash at the end of the line', ';"{X}\\\n;\n'), ('tab inside the string', ';"{X}\t"\n'),
+        ('non-ASCII character at the end', ';"{X}\u00e9"\n'), ('stray quote before a line of code', '" wflip {X}, 1\n'),
+        ('in a constant definition', 'c = "{X}\n;c\n'), ('in pad', ';\npad "{X}\n'),
+        ('character literal without the closing quote', ";'{X}\n;\n"), ('character literal that is too long', ";'{X}'\n"),
+        ('character literal with an invalid escape', ";'{X}\\q'\n"), ('closing quote of the other kind', ';"{X}\'\n'),
+        ('quote inside a comment line then a real one', '// "{X}\n;"{X}\n'),
+    ]
+    out = []
+    for i in range(n):
+        hint, tpl = contexts[i % len(contexts)]
+        ln = LITERAL_LENGTHS[(i // len(contexts) + 7 * (i % len(contexts))) % len(LITERAL_LENGTHS)]
+        k = rng.randrange(3)
+        run = ('a' * ln) if k == 0 else ''.join(rng.choice(plain) for _ in range(ln)) if k == 1 else \
+            ''.join(rng.choice('ab c') for _ in range(ln))
+        out.append(case('unterminated', tpl.replace('{X}', run).replace('{{', '{').replace('}}', '}'),
+                        f'{hint}, {ln} plain characters', must_finish=True, watchdog=LEX_WATCHDOG))
+    return out
+
+
 # ---- 2. syntax -----------------------------------------------------------------------------------------------------
 
 def gen_syntax(rng, n):
